@@ -62,3 +62,4 @@ package logql_transpiler_v2
 //@ func (*ZeroEaterPlanner).Process$2 [C08]
 //@   flag checks=-index,-assert
 //@   check buffer-empty-after-every-batch: len(_entries) == 0
+//@   check handed-over-buffer-is-given-up: len(old(_entries)) > 0 ==> isnil(_entries)
